@@ -619,6 +619,64 @@ where
         ctx.check(own == ext_rows, "reed-solomon-rows", "encode", desc.clone(), || json!({"rho_inv": rho, "n_cols": dc, "expected_codeword_length": n, "library_codeword_length": ext_rows[0].len()}));
         ext_rows = own;
     }
+    if S::NAME == "brakedown" {
+        // the rows re-encoded from the key's sparse matrices and their dimensions alone (not its start / end tables):
+        // x_0 | x_1 = x_0 A_0 | ... | base code of x_L | v_{L-1} | ... | v_0, every v_i = (its input window) B_i,
+        // in the order the published construction of this library uses (outermost first)
+        if let Ok(pm) = convert::<_, crate::mirror::MBrakedownParams<LFr>>(&w.ck) {
+            let sp_mul = |mat: &crate::mirror::MSprsMat<LFr>, v: &[LFr]| -> Vec<LFr> {
+                (0..mat.m).map(|j| (mat.ind_ptr[j]..mat.ind_ptr[j + 1]).map(|k| v[mat.col_ind[k]] * mat.val[k]).sum::<LFr>()).collect()
+            };
+            let levels = pm.a_dims.len();
+            let mut own: Vec<Vec<LFr>> = Vec::new();
+            let mut shape_ok = levels == pm.b_dims.len() && dc == pm.m;
+            for r in 0..dr {
+                if !shape_ok {
+                    break;
+                }
+                let mut cw = coeffs[r * dc..(r + 1) * dc].to_vec();
+                let mut block = 0usize;
+                for i in 0..levels {
+                    let (rows, cols, _) = pm.a_dims[i];
+                    if cw.len() != block + rows || pm.a_mats[i].n != rows || pm.a_mats[i].m != cols {
+                        shape_ok = false;
+                        break;
+                    }
+                    let y = sp_mul(&pm.a_mats[i], &cw[block..block + rows]);
+                    cw.extend(y);
+                    block += rows;
+                }
+                if !shape_ok {
+                    break;
+                }
+                let (in_len, out_len) = if levels == 0 { (pm.m, pm.m_ext) } else { (pm.a_dims[levels - 1].1, pm.b_dims[levels - 1].0) };
+                let mut z = Vec::with_capacity(out_len);
+                let mut x = LFr::one();
+                for _ in 0..out_len {
+                    z.push(cw[block..block + in_len].iter().rev().fold(LFr::zero(), |acc, c| acc * x + c));
+                    x += LFr::one();
+                }
+                cw.resize(pm.m_ext, LFr::zero());
+                cw[block..block + out_len].copy_from_slice(&z);
+                let (mut hi, mut in_start) = (pm.m_ext, 0usize);
+                for i in 0..levels {
+                    let (rows, cols, _) = pm.b_dims[i];
+                    in_start += pm.a_dims[i].0;
+                    let lo = hi - cols;
+                    if lo < in_start || lo - in_start != rows {
+                        shape_ok = false;
+                        break;
+                    }
+                    let v = sp_mul(&pm.b_mats[i], &cw[in_start..lo]);
+                    cw[lo..hi].copy_from_slice(&v);
+                    hi = lo;
+                }
+                own.push(cw);
+            }
+            ctx.count(&format!("brakedown-recursion-levels:{}", levels), 1);
+            ctx.check(shape_ok && own == ext_rows, "brakedown-rows-follow-the-key-matrices", "encode", desc.clone(), || json!({"levels": levels, "shape_consistent": shape_ok, "rows": dr, "m": pm.m, "m_ext": pm.m_ext}));
+        }
+    }
     let n_ext = ext_rows[0].len();
     let mut leaves: Vec<Vec<u8>> = Vec::new();
     for j in 0..n_ext {
@@ -661,7 +719,7 @@ pub fn run(ctx: &mut Ctx) {
     ctx.run_cases("hyrax/large", nl, |ctx, _i, rng| hyrax(ctx, rng));
     ctx.run_cases("ligero-uni/large", nl, |ctx, _i, rng| linear_code::<UniLigeroS, UniLigeroEnc>(ctx, rng));
     ctx.run_cases("ligero-ml/large", nl, |ctx, _i, rng| linear_code::<MlLigeroS, MlLigeroEnc>(ctx, rng));
-    ctx.run_cases("brakedown/large", nl, |ctx, _i, rng| linear_code::<BrakedownS, BrakedownEnc>(ctx, rng));
+    ctx.run_cases("brakedown/large", nl + 3, |ctx, _i, rng| linear_code::<BrakedownS, BrakedownEnc>(ctx, rng));
     set_large(false);
     if ctx.is_thorough() {
         ctx.run_cases("marlin-377", n / 4, |ctx, _i, rng| kzg_family::<E377, MarlinS<E377>>(ctx, rng, false));
